@@ -172,6 +172,12 @@ func unmapLinkProperties(mm map[string][]byte, l *Link) error {
 			return err
 		}
 	}
+	if raw, ok := mm["preview"]; ok {
+		var err error
+		if l.Preview, err = gobDecodeItem(raw); err != nil {
+			return err
+		}
+	}
 	if raw, ok := mm["width"]; ok {
 		if err := gobDecodeUint(&l.Width, raw); err != nil {
 			return err
